@@ -123,4 +123,5 @@ int rt_blocked_woken (int t);
 /* logging */
 extern FILE *rt_log;                       /* if non-NULL each granted step is appended as one JSON line by the harness */
 const char *rt_kind_name (int kind);
+void rt_touch (const void *addr, int is_write);
 #endif
